@@ -13,7 +13,8 @@ TRUSTED = ["C15 module Binary64: Coq standard-library axioms of the real numbers
 CHECK_MODULE = "Check.C15"
 COQ_IMPORTS = "Model.Window"
 SHARD = 300
-RULE = ("tick-aligned windows with duration, step in 1..4 ticks and start in -2..2 x every focus segment with bounds "
+RULE = ("[also: Timeline focuses built in part, cropped, then completed in place; every crop repeated with windows that differ only by an `end`] " +
+        "tick-aligned windows with duration, step in 1..4 ticks and start in -2..2 x every focus segment with bounds "
         "in -6..10 (inside, straddling or before the window start, shorter than a frame, empty) x fixed in "
         "{None, 0, 1, duration, duration+2*step+1}; timeline focuses (overlapping, abutting, tiny, empty) of up to 4 "
         "segments; each mode, index-array and return_ranges forms; random larger geometries; regimes K0, K4; "
